@@ -44,6 +44,10 @@ type arrView[T num, A arr[T, A]] struct {
 	ref refView
 	g   A
 	c   A
+	// the result of the last Unroll of this view when the view is scattered (then the result is a
+	// snapshot that belongs to the caller), and the values it held
+	snap     []T
+	snapVals []float64
 }
 
 func rowMajorNext(idx, shape []int) {
@@ -795,6 +799,21 @@ func arraysRun[T num, A arr[T, A]](k kit[T, A], rc *RunCtx, o *Outcome) {
 				}
 				if isGo {
 					goUnrolled = u
+					if !cons {
+						// an earlier snapshot of the same scattered view is the caller's: a later Unroll
+						// must not have changed it
+						for i := range v.snap {
+							if !sameVal(v.snap[i], v.snapVals[i]) {
+								x.fail(fam, "earlier-unroll-result-changed", tag+"unroll/snapshot", "%s: element %d of the slice an EARLIER Unroll of this scattered view returned is now %v, it was %v when it was returned (a snapshot belongs to the caller)", rv.how, i, v.snap[i], v.snapVals[i])
+								return
+							}
+						}
+						v.snap = u
+						v.snapVals = make([]float64, len(rv.offs))
+						for i, off := range rv.offs {
+							v.snapVals[i] = r.store[off]
+						}
+					}
 				}
 			})
 			if !x.aborted && cons && n > 0 {
@@ -1620,6 +1639,45 @@ func largeBlockProbe[T num, A arr[T, A]](k kit[T, A], x *arrCtx, w *simrt.Tape) 
 		}
 	}
 	x.o.probe("block_write_of_more_than_65536_elements")
+	// a large view read in bulk, written through ANOTHER view object of the same storage, and read in
+	// bulk again (both back-ends): the second reading shows the write
+	for pass, a := range []A{ga, ca} {
+		// (filed under the write family: what is checked is that a write is visible through every view)
+		fam, tag := "write", "go/"
+		if pass == 1 {
+			fam, tag = "cdiff:write", "c/"
+		}
+		var escaped interface{}
+		func() {
+			defer func() { escaped = recover() }()
+			u1 := a.Unroll()
+			rr, cc := w.Choose(rows), w.Choose(cols)
+			child := a.Slice([]int{rr, 0}, []int{1, cols}, nil)
+			marker := T(253)
+			child.Set([]int{0, cc}, marker)
+			u2 := a.Unroll()
+			if len(u1) != n || len(u2) != n {
+				x.fail(fam, "unroll-differs", tag+"unroll/large", "%s: Unroll of the whole array has %d / %d elements, the array has %d", what, len(u1), len(u2), n)
+				return
+			}
+			if u2[rr*cols+cc] != marker {
+				x.fail(fam, "unroll-differs", tag+"unroll/large", "%s: after a write through a row view, Unroll()[%d] of the whole array is %v, the element is %v", what, rr*cols+cc, u2[rr*cols+cc], marker)
+				return
+			}
+			for i := 0; i < n; i += 1 + i%11 {
+				if i != rr*cols+cc && float64(u2[i]) != float64(fresh[i]) {
+					x.fail(fam, "unroll-differs", tag+"unroll/large", "%s: Unroll()[%d] of the whole array is %v, the element is %v", what, i, u2[i], fresh[i])
+					return
+				}
+			}
+			// put the element back
+			child.Set([]int{0, cc}, fresh[rr*cols+cc])
+		}()
+		if escaped != nil {
+			x.fail(fam, "panic", tag+"panic/large", "%s panicked in the bulk read: %v", what, escaped)
+			return
+		}
+	}
 	// a large scattered view read in bulk: one column of an [n,2] or [n,3] array with more than 2^17
 	// rows (Unroll, and as the source of a copy into a fresh contiguous array), Go-backed
 	rows2 := (1 << 17) + 1 + w.Choose(40000)
